@@ -4,6 +4,13 @@ pub mod nd;
 pub mod oracle;
 pub mod spec;
 pub mod statics;
+pub mod store;
 pub mod util;
 #[cfg(kani)]
+mod h_layout;
+#[cfg(kani)]
+mod h_problem;
+#[cfg(kani)]
 mod h_static;
+#[cfg(kani)]
+mod h_store;
